@@ -1270,3 +1270,77 @@ def replay_bls_total(args):
             if got is not False:
                 bad.append((sname, nm, got))
     return (len(bad) > 0), "bls_total: %d wrong answers %s" % (len(bad), str(bad[:3])[:300])
+
+
+# ---------------------------------------------------------------------------
+# C15 / C16 oracles over the real hashlib
+
+def rfc_expand_message_xmd(msg, dst, n, hname):
+    import hashlib
+    H = lambda b: getattr(hashlib, hname)(b).digest()
+    b_in = getattr(hashlib, hname)().digest_size
+    r_in = getattr(hashlib, hname)().block_size
+    ell = -((-n) // b_in)
+    if ell > 255 or n > 65535 or len(dst) > 255:
+        raise ValueError("abort")
+    dst_prime = dst + bytes([len(dst)])
+    msg_prime = b"\x00" * r_in + msg + n.to_bytes(2, "big") + b"\x00" + dst_prime
+    b0 = H(msg_prime)
+    if ell == 0:
+        return b""
+    bs = [H(b0 + b"\x01" + dst_prime)]
+    for i in range(2, ell + 1):
+        bs.append(H(bytes(x ^ y for x, y in zip(b0, bs[-1])) + bytes([i]) + dst_prime))
+    return b"".join(bs)[:n]
+
+
+def replay_c15_xmd(args):
+    import hashlib
+    from py_ecc.bls.hash import expand_message_xmd
+    hname = args.get("hash", "sha256")
+    hfn = getattr(hashlib, hname)
+    b_in = hfn().digest_size
+    bad = []
+    ns = [0, 1, b_in - 1, b_in, b_in + 1, 2 * b_in, 255 * b_in, 255 * b_in + 1, 65535, 65536, 100]
+    dls = [0, 1, 254, 255, 256, 300]
+    if "n" in args:
+        ns.insert(0, int(args["n"]))
+    if "dst_len" in args:
+        dls.insert(0, int(args["dst_len"]))
+    for n in ns:
+        for dl in dls[:3] if n > 300 else dls:
+            for msg in (b"", b"abc", b"\x00" * 70):
+                dst = bytes((i * 7 + 1) % 256 for i in range(dl))
+                try:
+                    exp = rfc_expand_message_xmd(msg, dst, n, hname)
+                except ValueError:
+                    exp = "abort"
+                try:
+                    got = expand_message_xmd(msg, dst, n, hfn)
+                except ValueError:
+                    got = "abort"
+                except Exception as e:
+                    got = repr(e)[:50]
+                if got != exp:
+                    bad.append((hname, n, dl, len(msg), str(got)[:20]))
+    return (len(bad) > 0), "c15_xmd: %d mismatches %s" % (len(bad), str(bad[:3])[:300])
+
+
+def replay_c15_h2f(args):
+    import hashlib
+    from py_ecc.bls.hash_to_curve import hash_to_field_FQ, hash_to_field_FQ2
+    q = _Q381
+    bad = []
+    for count in range(1, 9):
+        for msg, dst in ((b"", b"QUUX-V01-CS02"), (b"abc", b"x" * 255)):
+            ub = rfc_expand_message_xmd(msg, dst, count * 64, "sha256")
+            exp = [int.from_bytes(ub[64 * i:64 * i + 64], "big") % q for i in range(count)]
+            got = [int(e) for e in hash_to_field_FQ(msg, count, dst, hashlib.sha256)]
+            if got != exp:
+                bad.append(("FQ", count))
+            ub = rfc_expand_message_xmd(msg, dst, count * 128, "sha256")
+            exp = [[int.from_bytes(ub[64 * (j + 2 * i):64 * (j + 2 * i) + 64], "big") % q for j in range(2)] for i in range(count)]
+            got = [[int(c) for c in e.coeffs] for e in hash_to_field_FQ2(msg, count, dst, hashlib.sha256)]
+            if got != exp:
+                bad.append(("FQ2", count))
+    return (len(bad) > 0), "c15_h2f: %d mismatches %s" % (len(bad), bad[:3])
